@@ -304,13 +304,13 @@ class GeoPolygon(PolygonBase, SimpleShapeMixin):
 
         s_holes = set(
             [
-                tuple({(x, y) for x, y in zip(hole.bounding_coords(), hole.bounding_coords()[1:])})
+                frozenset({(x, y) for x, y in zip(hole.bounding_coords(), hole.bounding_coords()[1:])})
                 for hole in self.holes
             ]
         )
         o_holes = set(
             [
-                tuple({(x, y) for x, y in zip(hole.bounding_coords(), hole.bounding_coords()[1:])})
+                frozenset({(x, y) for x, y in zip(hole.bounding_coords(), hole.bounding_coords()[1:])})
                 for hole in other.holes
             ]
         )
